@@ -55,6 +55,11 @@ def mats(rng):
     L = np.diag(np.array(S - np.diag(np.diag(S))).sum(1) * -1) + (S - np.diag(np.diag(S)))   # pure graph Laplacian: singular
     out.append(('laplacian-singular-5', L, 'singular'))
     out.append(('all-zero-4', np.zeros((4, 4)), 'zero'))
+    # a singular matrix of moderate size: the 1-D Neumann Laplacian on 36 points (its smallest nonzero singular value is far
+    # above n*eps, its zero singular value is not above 1e-15 times the largest one in floating point)
+    Ln = 2.0 * np.eye(36) - np.eye(36, k=1) - np.eye(36, k=-1)
+    Ln[0, 0] = Ln[-1, -1] = 1.0
+    out.append(('neumann-laplacian-36', Ln, 'singular'))
     # well-conditioned and nonsingular, but unsolvable without pivoting: zero / tiny diagonal entries
     # (kind 'pivot': direct solvers only -- relaxation and Krylov methods are not defined / not convergent there)
     out.append(('needs-pivoting-3', np.array([[1e-14, 1.0, 0.0], [1.0, 1.0, 1.0], [0.0, 1.0, 3.0]]), 'pivot'))
@@ -72,7 +77,7 @@ def run(ctx):
             A = sp.csr_array(np.ones_like(Ad))
             A.data[:] = np.asarray(Ad).ravel()          # every entry stored, zeros included
         cplx = np.iscomplexobj(Ad)
-        solvers = ['pinv', 'lu', 'cholesky', 'splu', ('pinv', {}), None,
+        solvers = ['pinv', 'lu', 'cholesky', 'splu', ('pinv', {}), ('cholesky', {'lower': True}), ('lu', {'check_finite': False}), None,
                    'cg', 'gmres', 'bicgstab', 'gauss_seidel', 'jacobi', 'sor', 'block_gauss_seidel', 'richardson',
                    ('gauss_seidel', {'iterations': 30}), 'callable']
         for sv in solvers:
@@ -95,7 +100,7 @@ def run(ctx):
             ctx.mark(case)
             try:
                 if sv == 'callable':
-                    P = np.linalg.pinv(Ad)
+                    P = np.linalg.pinv(Ad, rcond=Ad.shape[0] * np.finfo(float).eps)
                     cgs = coarse_grid_solver(lambda A_, b_: P @ b_)
                 else:
                     cgs = coarse_grid_solver(sv)
@@ -150,7 +155,8 @@ def run(ctx):
                     if _nn(np.linalg.norm(xv - ref)) > 1e-9 * np.linalg.cond(Ad) * (1 + np.linalg.norm(ref)):
                         ctx.fail('coarse/%s/wrong-solution' % sname, '|x - A^-1 b| = %.3g' % np.linalg.norm(xv - ref), cs)
                 elif sname in ('pinv', 'callable') and kind in ('singular', 'singular-zero'):
-                    ref = np.linalg.pinv(Ad) @ bv
+                    # minimum-norm least-squares solution (singular values below max(M,N)*eps*s_max count as zero)
+                    ref = np.linalg.lstsq(Ad, bv, rcond=None)[0]
                     if _nn(np.linalg.norm(xv - ref)) > 1e-8 * (1 + np.linalg.norm(ref)):
                         ctx.fail('coarse/pinv/not-minimum-norm-least-squares', '|x - A^+ b| = %.3g' % np.linalg.norm(xv - ref), cs)
                 elif sname == 'splu' and kind == 'singular-zero':
